@@ -33,14 +33,14 @@ def _build_and_run(crate, profile, hooks):
 
 # ---- mapping of builder histories (E1 / E2 format, synthetic shapes) to executable definitions
 # shape (size, align) -> palette indices of mkexec.rs (droppable first: ledger-tracked)
-SHAPES = {(1, 1): [0], (2, 2): [1], (4, 4): [10, 2], (8, 8): [3], (3, 1): [4], (24, 8): [5, 8], (0, 1): [6, 9], (8, 4): [11]}
-COPY_TYPES = {0, 1, 2, 3, 4, 9, 11}
+SHAPES = {(1, 1): [0], (2, 2): [1], (4, 4): [10, 2], (8, 8): [3], (3, 1): [4], (24, 8): [5, 8], (0, 1): [6, 9], (8, 4): [11], (0, 8): [12]}
+COPY_TYPES = {0, 1, 2, 3, 4, 9, 11, 12}
 
 
 def approx_shape(size, align):
     """a palette type with the same qualitative shape (zero-size / size <= alignment / size > alignment, alignment class)"""
     if size == 0:
-        return [6, 9]
+        return [12] if align >= 2 else [6, 9]
     a = max(x for x in (1, 2, 4, 8, 16) if x <= max(align, 1))
     if size <= a:
         return {1: [0], 2: [1], 4: [10, 2], 8: [3], 16: [7]}[a]
@@ -134,7 +134,7 @@ def run_e3(tier, seed, specfile=None, count=None):
     if not ok:
         raise Broken("harness (mkexec) does not build against /repo:\n" + o[-3000:])
     if count is None:
-        count = 160 if tier == "thorough" else 36
+        count = 170 if tier == "thorough" else 46
     _, prim, _ = srcscan.scan_runtime()
     write_aligned = prim.get("write", ("", ""))[1] != "Unaligned"
     crate = os.path.join(out, "crate")
@@ -162,6 +162,16 @@ def run_e3(tier, seed, specfile=None, count=None):
             for line in open(os.path.join(crate, "index.txt")):
                 k, spec = line.strip().split(" ", 1)
                 specs[int(k)] = spec
+            panicked = set()
+            pf = os.path.join(crate, "panics.txt")
+            if os.path.exists(pf):
+                for line in open(pf):
+                    k, _, msg = line.strip().partition(" ")
+                    if k.isdigit():
+                        panicked.add(int(k))
+                        if attempt == 0:
+                            add("C13", tag, int(k), "building the definition or generating its code panicked: %s" % msg[:300])
+            skip_mod |= panicked
             r = _build_and_run(crate, profile, hooks)
             if r["built"]:
                 break
